@@ -205,7 +205,7 @@ func (fe *FnExec) execInstr(fr *frame, st *State, in ssa.Instruction) {
 
 func (fe *FnExec) doAlloc(st *State, x *ssa.Alloc) {
 	et := x.Type().(*types.Pointer).Elem()
-	if _, ok := et.Underlying().(*types.Struct); ok {
+	if _, ok := et.Underlying().(*types.Struct); ok && x.Heap {
 		fe.allocN++
 		ref := fe.fresh("obj."+typeName(et), "Int")
 		fe.assume(tEq(ref, sx("+", "HW", tInt(int64(fe.allocN)))), "fresh object id")
@@ -603,6 +603,12 @@ func (fe *FnExec) doTypeAssert(fr *frame, st *State, x *ssa.TypeAssert) Val {
 		pred := "impl." + typeName(at)
 		fe.eng.noteIface(pred, at)
 		ok = tAnd(tNot(tEq(ref, "0")), sx(sym(pred), sx("dyn", ref)))
+		if si, isI := x.X.Type().Underlying().(*types.Interface); isI {
+			if ai, isA := at.Underlying().(*types.Interface); isA && types.Implements(si, ai) {
+				// the static interface type already guarantees the asserted methods
+				ok = tNot(tEq(ref, "0"))
+			}
+		}
 	} else {
 		ok = tAnd(tNot(tEq(ref, "0")), tEq(sx("dyn", ref), tInt(int64(fe.tid(at)))))
 	}
